@@ -19,7 +19,7 @@ func init() {
 			"WriteArray pushes the WildCard constant object; the no-op writer's methods contain no call and no store; the writer's own scope stack is balanced (WriteArray/IsKeyExcluded by pairing, " +
 			"WriteMap by the started-flag protocol, decided on the CFGs of the key closure and of WriteMap: the flag — a boolean variable or field the closure raises, lowered at the start — is consulted on every path; where it is up the scope is popped exactly once before the push, " +
 			"where it is down nothing is popped and the flag is raised; every path pushes exactly once; after the callback every successful exit pops exactly once where the flag is up and not at all where it is down).",
-		Props:   []string{"C07"},
+		Props:   []string{"C07", "C03"},
 		Modules: []string{"v2"},
 		Floor:   map[string]int{"v2": 6},
 		Run:     runR071,
@@ -96,10 +96,17 @@ func runR071(c *core.Ctx) {
 	}
 	flow := core.NewFlow(c.M, inf, lit.Body)
 	okAll, nRet := true, 0
+	opensEarly, opens := token.NoPos, 0
 	flow.Run(&core.Automaton{
 		Init: 0,
 		Node: func(state int, n ast.Node) int {
 			for _, call := range core.CallsIn(n) {
+				if cf := core.Callee(inf, call); cf != nil && core.NameOf(cf) == "writeMapStart" {
+					opens++
+					if state != 3 && opensEarly == token.NoPos {
+						opensEarly = call.Pos()
+					}
+				}
 				if isEnter(call) && len(call.Args) == 1 {
 					// the pushed value must be the closure's key parameter
 					if core.ObjOf(inf, call.Args[0]) == inf.Defs[lit.Type.Params.List[0].Names[0]] {
@@ -129,6 +136,8 @@ func runR071(c *core.Ctx) {
 	})
 	c.Check(okAll && nRet > 0, rel, "(*genericWriter).WriteMap", "a real writer is handed out only after the key was pushed and found not excluded", lit.Pos(), "",
 		"some path returns a writing Writer without enterScope(key) followed by the false edge of excludedFields.Matches(scope)")
+	c.Check(opens > 0 && opensEarly == token.NoPos, rel, "(*genericWriter).WriteMap", "the map is opened only once a key is known to be kept", lit.Pos(), "",
+		"writeMapStart at "+c.M.Position(opensEarly)+" runs before the key passed the exclusion test (or is never called): a map whose keys are all excluded is emitted as an opening delimiter followed by the empty-map form")
 	// started-flag protocol, on the control flow graphs of the key closure and of WriteMap: the flag (a boolean variable
 	// or field the closure raises) says whether a key scope is currently pushed.  In the closure every path tests it;
 	// where it is up the scope is popped exactly once before the push, where it is down nothing is popped and the flag
